@@ -32,6 +32,26 @@ CLAIMED = {
             "of connect / reconnect / close-old / close-new / peer requests over real RPC connections.", "5 (C09)"),
     "C11": ("VipStore keep-alive rule (TLC property LivePeerNeverDropped) validated on recorded keep-alive histories of both "
             "drivers at store level and through vipnode_update.", "5 (C11)"),
+    "C10": ("VipPool/VipPoolTrace: bursts of concurrent requests on both store drivers; TLC searches for a one-at-a-time order of the atomic "
+            "endpoints that explains every reply, instruction and the final state (serialisability), checks that no handed-out value changed, "
+            "and the same workloads run with real parallelism under the race detector with conservation laws.", "5 (C10)"),
+    "C13": ("VipStore with crash / reopen / migration steps: a child process is killed (SIGKILL) after a chosen acknowledged operation, at a "
+            "random moment, or right after its n-th committed store transaction (verif hook); the re-opened state must be the model state with the "
+            "operation in flight applied completely or not at all.", "5 (C13)"),
+    "C14": ("VipRpc (TLC: invariants OwnReplyOnly/RepliesHaveOwners, liveness AllReturn with nested call-backs and cancellation) and trace "
+            "validation of call/send/recv/handle/cancel/return events recorded from real Remote pairs under concurrent use from both ends.", "5 (C14)"),
+    "C15": ("VipHostile: the complete message-shape table (exhaustive over shape classes, sampled fillings inside a class) executed against the "
+            "built pool and agent binaries; TLC checks each outcome against the classification and that the table is complete.", "5 (C15)"),
+    "C16": ("VipDispatch: complete table of registrations x names x parameter shapes against the real Server.Handle with invocation counting, "
+            "and the production registry of the built pool binary over HTTP and WebSocket; TLC checks outcomes and completeness.", "5 (C16)"),
+    "C17": ("VipCodec (TLC: prefix invariant and eventual delivery for every cut of the stream) and validation of message sequences pushed "
+            "through the real stream / gorilla / gobwas / HTTP codecs with re-cut and merged byte streams and concurrent writers.", "5 (C17)"),
+    "C18": ("VipAgent.Reconcile: complete table of local peers x pool reply x options executed as consecutive rounds on real Agents; TLC "
+            "checks the node and pool calls of every round and completeness.", "5 (C18)"),
+    "C19": ("VipNodeURI: complete table of node-URI overrides x source addresses through real signed vipnode_connect; TLC checks the stored "
+            "and advertised URI (own id, supplied-or-source host, port) and completeness.", "5 (C19)"),
+    "C20": ("VipAgent life-cycle state machine validated on seeded start/stop/wait/tick/failure sequences under the fake clock (exact "
+            "keep-alive counts), concurrent starts, and the built agent binary's --update-interval acceptance.", "5 (C20)"),
     "C12": ("VipStore is the store contract; each driver must refine it: every return value and the complete observable state "
             "after every operation of recorded random operation sequences are checked by TLC against the specification.", "5 (C12)"),
 }
@@ -40,17 +60,7 @@ NOTE = ("TLC explores the specification exhaustively only within the bounded con
         "is checked on the executions the seeded drivers produce (both store drivers, deterministic fake clock), not on all executions. "
         "Trusted: TLC, Go toolchain/runtime incl. faketime, secp256k1/Keccak, badger.")
 
-PENDING = {
-    "C10": "check under construction in this round (concurrent drivers under the race detector + serialisability trace spec)",
-    "C13": "check under construction in this round (crash / reopen driver for the persistent store)",
-    "C14": "check under construction in this round (VipRpc specification + scheduler codec)",
-    "C15": "check under construction in this round (VipDispatch shape table against the built binaries)",
-    "C16": "check under construction in this round (VipDispatch registry table)",
-    "C17": "check under construction in this round (VipCodec chunking replay)",
-    "C18": "check under construction in this round (VipAgent reconcile table)",
-    "C19": "check under construction in this round (VipNodeURI case table)",
-    "C20": "check under construction in this round (VipAgent life-cycle)",
-}
+PENDING = {}
 
 
 def main():
@@ -92,7 +102,7 @@ def main():
             "evidence_file": "evidence/%s.json" % pid,
             "replay_cmd_template": "./check %s --replay {path}" % pid,
             "engine": "tlc",
-            "level_claimed": {"category": "model_checking", "text": text, "design_ref": "DESIGN.md section " + ref},
+            "level_claimed": {"category": "exploration" if pid == "C15" else "model_checking", "text": text, "design_ref": "DESIGN.md section " + ref},
             "level_note": NOTE,
             "technique": "explicit TLA+ specification checked by TLC + trace validation of recorded executions of the real code against it",
         })
